@@ -50,13 +50,13 @@ class TimeActiveDecorator(TriggerHandlerDecorator, AutoKwargsDecorator):
 
             # all specifications are checked together: any positive one and none of the "not" ones
             _LOGGER.debug("time_active %s now %s, %s", self.args, now, self)
-            if await trigger.TrigTime.timer_active_check(self.args, now, self.dm.startup_time):
-                self.last_trig_time = time.monotonic()
-                return True
-            return False
+            return await trigger.TrigTime.timer_active_check(self.args, now, self.dm.startup_time)
 
-        self.last_trig_time = time.monotonic()
         return True
+
+    def trigger_accepted(self, data: DispatchData) -> None:
+        """Start the hold_off interval: it counts from triggers that every guard accepted."""
+        self.last_trig_time = time.monotonic()
 
 
 class TimeTriggerDecorator(TriggerDecorator):
